@@ -639,7 +639,7 @@ func (x *Exec) havocLoop(body ast.Node, extra []types.Object, st *State, env *En
 		h.vars[obj] = nv
 		x.assumeWF(h, nv)
 		// automatic framing invariant for slices: the array is the pre-loop one or was allocated during the loop
-		if _, isSl := obj.Type().Underlying().(*types.Slice); isSl {
+		if _, isSl := obj.Type().Underlying().(*types.Slice); isSl && x.writtenThrough(body, obj, env.info) {
 			lc.autoSlices = append(lc.autoSlices, autoSlice{obj, x.c.accessor("s.ref", old.T)})
 			x.c.assume("true", or(eq(x.c.accessor("s.ref", nv.T), x.c.accessor("s.ref", old.T)), app(">=", x.c.accessor("s.ref", nv.T), allocEntry)))
 		}
@@ -700,6 +700,10 @@ func (x *Exec) havocLoop(body ast.Node, extra []types.Object, st *State, env *En
 				nf := x.c.freshConst("failed", "Bool")
 				x.c.assume("true", implies(v.T, nf))
 				h.gh[k] = Val{T: nf, Ty: tBool}
+			case strings.HasPrefix(k, "scanpos:"):
+				np := x.c.freshConst("scanpos", "Int")
+				x.c.assume("true", and(app(">=", np, v.T), app("<=", np, st.gh["scan:"+k[8:]].Seq.N)))
+				h.gh[k] = Val{T: np, Ty: tInt}
 			case strings.HasPrefix(k, "recvpos:"):
 				np := x.c.freshConst("recvpos", "Int")
 				x.c.assume("true", app(">=", np, v.T))
@@ -807,10 +811,13 @@ func (x *Exec) loopWritable(body ast.Node, st *State, env *Env, elemSort string)
 		}
 		var v Val
 		func() {
-			defer func() { recover() }()
+			saved := x.c.inContract
+			defer func() {
+				x.c.inContract = saved
+				recover()
+			}()
 			x.c.inContract++
 			v = x.eval(e, st.clone(), env)
-			x.c.inContract--
 		}()
 		if v.T == "" {
 			return
@@ -961,7 +968,74 @@ func (x *Exec) execFor(n *ast.ForStmt, st *State, env *Env) Flow {
 	return Flow{normal: x.merge(exit, f.brk), ret: f.ret}
 }
 
+// fillIdiom recognises `for i := range X { X[i] = c }` / `for i, _ := range X { X[i] = c }` with c a constant and X a
+// variable: its effect is exactly "every element of X becomes c" (arrays) resp. "every element of X[0:len] becomes c"
+// (slices); it is executed by that rule instead of a loop cut, so no invariant is needed for it.
+func (x *Exec) fillIdiom(n *ast.RangeStmt, st *State, env *Env) bool {
+	if x.con != nil {
+		if _, has := x.con.Loops[x.loopOrd[n]]; has {
+			return false
+		}
+	}
+	key, ok := n.Key.(*ast.Ident)
+	if !ok || key.Name == "_" || n.Tok != token.DEFINE {
+		return false
+	}
+	if n.Value != nil {
+		if v, ok := n.Value.(*ast.Ident); !ok || v.Name != "_" {
+			return false
+		}
+	}
+	xid, ok := n.X.(*ast.Ident)
+	if !ok || len(n.Body.List) != 1 {
+		return false
+	}
+	as, ok := n.Body.List[0].(*ast.AssignStmt)
+	if !ok || as.Tok != token.ASSIGN || len(as.Lhs) != 1 || len(as.Rhs) != 1 {
+		return false
+	}
+	ix, ok := as.Lhs[0].(*ast.IndexExpr)
+	if !ok {
+		return false
+	}
+	bid, ok := ix.X.(*ast.Ident)
+	iid, ok2 := ix.Index.(*ast.Ident)
+	if !ok || !ok2 || env.info.Uses[bid] != env.info.Uses[xid] || env.info.Uses[iid] != env.info.Defs[key] {
+		return false
+	}
+	tv, ok := env.info.Types[as.Rhs[0]]
+	if !ok || tv.Value == nil {
+		return false
+	}
+	coll := x.eval(n.X, st, env)
+	switch u := coll.Ty.Underlying().(type) {
+	case *types.Array:
+		c := x.materialize(Val{C: tv.Value}, u.Elem())
+		ks := "Int"
+		if u.Len() == 256 {
+			ks = sortBV8
+		}
+		x.assign(n.X, Val{T: x.c.constArray(ks, x.c.sortOf(u.Elem()), c.T), Ty: coll.Ty}, st, env)
+		return true
+	case *types.Slice:
+		c := x.materialize(Val{C: tv.Value}, u.Elem())
+		es := x.c.sortOf(u.Elem())
+		ref, off, ln, _ := x.sliceParts(coll)
+		h := x.heap(st, es)
+		x.noteWrite(st, ref, n.Pos(), x.ord[ix])
+		na := x.c.freshConst("A", "(Array Int "+es+")")
+		old := x.c.define("arr", "(Array Int "+es+")", app("select", h, ref))
+		x.c.assumes = append(x.c.assumes, fmt.Sprintf("(forall ((j Int)) (! (= (select %s j) (ite (and (<= %s j) (< j (+ %s %s))) %s (select %s j))) :pattern ((select %s j))))", na, off, off, ln, c.T, old, na))
+		st.heaps[es] = x.c.define("H", x.c.heapName(es), app("store", h, ref, na))
+		return true
+	}
+	return false
+}
+
 func (x *Exec) execRange(n *ast.RangeStmt, st *State, env *Env) Flow {
+	if x.fillIdiom(n, st, env) {
+		return Flow{normal: st}
+	}
 	spec, ord := x.loopSpec(n)
 	pos := n.Body.Lbrace + 1
 	coll := x.eval(n.X, st, env)
@@ -1096,6 +1170,7 @@ var pureLib = map[string]bool{
 	"errors.New": true, "fmt.Errorf": true, "strconv.Itoa": true, "strconv.FormatFloat": true, "strconv.Atoi": true,
 	"strings.Join": true, "strings.ToUpper": true, "(*os.File).WriteString": true, "fmt.Fprintf": true, "fmt.Fprintln": true,
 	"fmt.Fprint": true, "unicode/utf8.DecodeRune": true, "unicode.IsLetter": true, "math.Log": true,
+	"(*bufio.Scanner).Bytes": true, "(*bufio.Scanner).Text": true, "(*bufio.Scanner).Err": true, "(*bufio.Scanner).Buffer": true,
 }
 
 // callEffects: what a call inside a loop body may change (used to decide what the loop havocs)
@@ -1108,8 +1183,14 @@ func (x *Exec) callEffects(n *ast.CallExpr, info *types.Info) (allocs, ghosts bo
 	if pureLib[full] {
 		return false, false, nil
 	}
-	if full == "(io.Writer).Write" {
+	if full == "(io.Writer).Write" || full == "(*bufio.Scanner).Scan" {
 		return false, true, nil
+	}
+	if full == "strings.Fields" {
+		return true, false, []string{sortStr}
+	}
+	if full == "(*bufio.Scanner).Text" {
+		return false, false, nil
 	}
 	if full == "sort.Slice" || full == "sort.SliceStable" {
 		if t := info.TypeOf(n.Args[0]); t != nil {
@@ -1169,9 +1250,12 @@ func (x *Exec) ghostHandlesIn(body ast.Node, st *State, env *Env) (all bool, han
 		}
 		var v Val
 		func() {
-			defer func() { recover() }()
+			saved := x.c.inContract
+			defer func() {
+				x.c.inContract = saved
+				recover()
+			}()
 			x.c.inContract++
-			defer func() { x.c.inContract-- }()
 			v = x.eval(e, st.clone(), env)
 		}()
 		return v.T, v.T != ""
@@ -1204,7 +1288,10 @@ func (x *Exec) ghostHandlesIn(body ast.Node, st *State, env *Env) (all bool, han
 			if pureLib[full] || full == "sort.Slice" || full == "sort.SliceStable" {
 				return true
 			}
-			if full == "(io.Writer).Write" {
+			if full == "strings.Fields" {
+				return true
+			}
+			if full == "(io.Writer).Write" || full == "(*bufio.Scanner).Scan" {
 				if sel, ok := n.Fun.(*ast.SelectorExpr); ok {
 					if t, ok := termOf(sel.X); ok {
 						handles[t] = true
@@ -1247,4 +1334,49 @@ func (x *Exec) ghostHandlesIn(body ast.Node, st *State, env *Env) (all bool, han
 		return true
 	})
 	return
+}
+
+
+// writtenThrough: does the loop body store into / append to / copy into the slice variable obj?
+func (x *Exec) writtenThrough(body ast.Node, obj types.Object, info *types.Info) bool {
+	found := false
+	isObj := func(e ast.Expr) bool {
+		for {
+			if p, ok := e.(*ast.ParenExpr); ok {
+				e = p.X
+				continue
+			}
+			break
+		}
+		id, ok := e.(*ast.Ident)
+		return ok && (info.Uses[id] == obj || info.Defs[id] == obj)
+	}
+	ast.Inspect(body, func(nd ast.Node) bool {
+		switch n := nd.(type) {
+		case *ast.AssignStmt:
+			for _, l := range n.Lhs {
+				if ix, ok := l.(*ast.IndexExpr); ok && isObj(ix.X) {
+					found = true
+				}
+			}
+		case *ast.IncDecStmt:
+			if ix, ok := n.X.(*ast.IndexExpr); ok && isObj(ix.X) {
+				found = true
+			}
+		case *ast.CallExpr:
+			if id, ok := n.Fun.(*ast.Ident); ok && (id.Name == "append" || id.Name == "copy") && len(n.Args) > 0 && isObj(n.Args[0]) {
+				found = true
+			}
+			// passed to a callee that may modify it
+			if fn := calleeOf(n, info); fn != nil {
+				for _, a := range n.Args {
+					if isObj(a) && !pureLib[fn.FullName()] {
+						found = true
+					}
+				}
+			}
+		}
+		return true
+	})
+	return found
 }
